@@ -5,7 +5,8 @@ Engine B (unbounded length, z3 regex obligations on the LIVE patterns):
   strict RFC 3986 origin-form/asterisk targets are accepted, _netloc_re == reference grammar,
   _re_unescape_pattern == "backslash + any one character".
 Engine A (CrossHair, bounded, any code point): parse_request_start_line / parse_response_start_line
-accept exactly the grammar (HTTP/1.x) and raise only HTTPInputError; _parse_header, parse_cookie,
+accept exactly the grammar (HTTP/1.x) and raise only HTTPInputError; url_concat keeps existing pairs (blank values
+included) and the fragment and appends the arguments; HTTP timestamps round-trip (pooled search); _parse_header, parse_cookie,
 _unquote_cookie, split_host_and_port never raise; token parameters round-trip through
 _encode_header/_parse_header; re_unescape inverts re.escape; is_valid_ip's empty/NUL guard.
 """
@@ -87,8 +88,17 @@ def pre_line(line: str) -> bool:
     return len(line) <= P.L and in_shard(len(line))
 
 
-@harness(pre=pre_line, quick=dict(L=12, timeout=300, reach_timeout=200), thorough=dict(L=15, timeout=1200, reach_timeout=300),
-         nshards=dict(quick=1, thorough=4), reach=["accepted", "bad_version"],
+def pre_reqline(line: str) -> bool:
+    n = len(line)
+    if n > P.L:
+        return False
+    # lines shorter than 12 can only be rejected (cheap); from 12 on, split by the major-version character
+    # (tornado formats a refused version with "%r", which realises it: ~100 versions x method/target classes)
+    return in_shard(n % 4 if n < 12 else 4 + ord(line[n - 3]) % 4)
+
+
+@harness(pre=pre_reqline, quick=dict(L=12, timeout=300, reach_timeout=200), thorough=dict(L=14, timeout=1500, reach_timeout=300),
+         nshards=8, reach=["accepted", "bad_version"],
          units=["httputil.parse_request_start_line", "httputil._ABNF.request_line"],
          stubs=[], outside=["lines longer than L code points (Engine B covers the regex for every length)",
                             "request-target is checked as 1*(VCHAR/obs-text), not against RFC 3986"])
@@ -137,7 +147,7 @@ def pre_total(f: int, s: str) -> bool:
     return 0 <= f <= 3 and len(s) <= (P.L0 if f == 0 else P.L) and in_shard(f)
 
 
-@harness(pre=pre_total, quick=dict(L=3, L0=2, timeout=150, reach_timeout=120), thorough=dict(L=5, L0=4, timeout=1200, reach_timeout=200),
+@harness(pre=pre_total, quick=dict(L=3, L0=2, timeout=450, reach_timeout=120), thorough=dict(L=4, L0=4, timeout=1500, reach_timeout=200),
          nshards=4, reach=["quoted_cookie", "with_port", "param"],
          units=["httputil._parse_header", "httputil._parseparam", "httputil.parse_cookie",
                 "httputil._unquote_cookie", "httputil.split_host_and_port"],
@@ -179,35 +189,214 @@ def _is_token(s):
     return True
 
 
-def pre_rt(kb: bool, params: List[Tuple[str, str]]) -> bool:
+# Tokens chosen by symbolic index: every tchar punctuation on its own, both letter cases, digits, and a few
+# multi-character tokens.  (Symbolic str tokens push email.utils.decode_params' regexes into ~2 s/path.)
+TOKENS = ["a", "Z", "0", "-", "_", ".", "!", "#", "$", "%", "&", "'", "+", "^", "`", "|", "~", "aB", "x-y",
+          "%41", "a'b", "utf-8", "15", "*"]
+
+
+def pre_rt(kb: bool, params: List[Tuple[int, int]]) -> bool:
     if not (len(params) <= P.NP):
         return False
+    nt = P.NT if len(params) <= 1 else P.NT2
     for p, v in params:
-        if not (len(p) <= P.L and len(v) <= P.L):
+        if not (0 <= p < nt - 1 and 0 <= v < nt):      # the last token ("*") is never a name
             return False
     return in_shard(len(params))
 
 
-@harness(pre=pre_rt, quick=dict(L=1, NP=1, timeout=200), thorough=dict(L=2, NP=2, timeout=1200),
-         nshards=dict(quick=2, thorough=3), reach=["roundtrip"],
+@harness(pre=pre_rt, quick=dict(NP=2, NT=len(TOKENS), NT2=5, timeout=200), thorough=dict(NP=2, NT=len(TOKENS), NT2=10, timeout=1200),
+         nshards=3, reach=["roundtrip", "two_params"],
          units=["httputil._encode_header", "httputil._parse_header", "httputil._parseparam"],
-         stubs=[], outside=["parameter names containing '*' (RFC 2231 extended-parameter syntax, decoded on "
-                            "purpose)", "non-token (quoted) values: _encode_header does not quote",
-                            "tokens longer than L characters, more than NP parameters", "main value from a pool of two tokens"])
-def h_param_roundtrip(kb: bool, params: List[Tuple[str, str]]):
+         stubs=["parameter names and values are chosen by symbolic index from a pool of %d tokens (each tchar "
+                "punctuation, both cases, digits, multi-character tokens)" % len(TOKENS)],
+         outside=["parameter names containing '*' (RFC 2231 extended-parameter syntax, decoded on purpose)",
+                  "non-token (quoted) values: _encode_header does not quote", "tokens outside the pool",
+                  "more than 2 parameters", "main value from a pool of two tokens"])
+def h_param_roundtrip(kb: bool, params: List[Tuple[int, int]]):
     key = "permessage-deflate" if kb else "k"
-    pd = {}
+    pd, src = {}, {}
     for p, v in params:
-        if not (_is_token(p) and _is_token(v)) or "*" in p:
+        name, val = TOKENS[p], TOKENS[v]
+        if name.lower() in pd:
             return
-        if p.lower() in pd:
-            return
-        pd[p.lower()] = v
-    enc = httputil._encode_header(key, {p: v for p, v in params})
+        pd[name.lower()] = val
+        src[name] = val
+    enc = httputil._encode_header(key, src)
     k2, pd2 = httputil._parse_header(enc)
     reached("roundtrip")
+    if len(params) == 2:
+        reached("two_params")
     assert k2 == key, "main value changed in the round trip"
-    assert pd2 == pd, "token parameters changed in the round trip"
+    assert pd2 == pd, "token parameters changed in the round trip: %r -> %r" % (enc, pd2)
+
+
+# ----------------------------------------------------------------- url_concat
+U_BASES = ["http://h/p", "/p;x", "http://u@h:8"]
+U_EX = [("a", "1"), ("flag", "9"), ("b", "x+y"), ("%26", "%3D"), ("c", "%C3%A9"), ("", "v"), ("d", "%25"), ("e", "\xe9")]
+U_ARGS = [("c", "d"), ("", ""), ("k&", "v="), ("p+", "q r"), ("%", "\xe9"), ("x", ""), ("h#", "/?"), ("a", "1")]
+U_FRAG = "f%20g"
+
+
+def ref_unquote(s):
+    """application/x-www-form-urlencoded decoding written from the WHATWG URL spec: '+' is a space, %XX is a byte,
+    everything else is itself (as UTF-8); the bytes are decoded as UTF-8."""
+    out = bytearray()
+    i = 0
+    hexd = "0123456789abcdefABCDEF"
+    while i < len(s):
+        c = s[i]
+        if c == "+":
+            out += b" "
+        elif c == "%" and i + 2 < len(s) and s[i + 1] in hexd and s[i + 2] in hexd:
+            out.append(int(s[i + 1:i + 3], 16))
+            i += 2
+        else:
+            out += c.encode("utf-8")
+        i += 1
+    return out.decode("utf-8", "replace")
+
+
+def ref_pairs(query):
+    out = []
+    for piece in query.split("&"):
+        if piece == "":
+            continue
+        if "=" in piece:
+            n, v = piece.split("=", 1)
+        else:
+            n, v = piece, ""          # a name without '=' is a pair with a blank value
+        out.append((ref_unquote(n), ref_unquote(v)))
+    return out
+
+
+def ref_split_url(url):
+    """(part before '?', query, fragment or None) by plain text splitting (RFC 3986 3.4 / 3.5)"""
+    frag = None
+    if "#" in url:
+        url, frag = url.split("#", 1)
+    query = ""
+    if "?" in url:
+        url, query = url.split("?", 1)
+    return url, query, frag
+
+
+def pre_url(b: int, fr: bool, ex: List[int], ei: int, ak: int, na: int, ai: int) -> bool:
+    if not (0 <= b < P.NB and len(ex) <= 2 and 0 <= ei < P.NE and 0 <= ak <= 3 and 0 <= na <= 2 and 0 <= ai < P.NA):
+        return False
+    for k in ex:
+        if not 0 <= k <= 2:
+            return False
+    if len(ex) == 0 and ei != 0:
+        return False
+    if (ak == 0 or na == 0) and ai != 0:
+        return False
+    if ak == 0 and na != 0:
+        return False
+    return in_shard(ak)
+
+
+@harness(pre=pre_url, quick=dict(NB=1, NE=4, NA=4, timeout=200, reach_timeout=90),
+         thorough=dict(NB=3, NE=8, NA=8, timeout=1200, reach_timeout=120),
+         nshards=4, reach=["blank_kept", "fragment", "dict_args", "empty_dict", "none_args"],
+         units=["httputil.url_concat"],
+         stubs=["existing pairs / argument pairs are taken from pools (incl. empty string, '&', '=', '+', space, '%', '#', "
+                "percent-escapes, non-ASCII) starting at a symbolic index; number of existing pairs (0..2), their form "
+                "(name=value / name= / bare name), argument container (None/dict/list/tuple), number of arguments (0..2), "
+                "fragment presence and base URL are solver-chosen (urlencode/quote realise symbolic strings)"],
+         outside=["pairs outside the pools, more than 2 existing pairs or arguments", "empty '&&' pieces in the query",
+                  "an empty fragment ('#' alone)", "byte-exact preservation of the existing query text (url_concat "
+                  "re-encodes it; the decoded pairs are compared)"])
+def h_url_concat(b: int, fr: bool, ex: List[int], ei: int, ak: int, na: int, ai: int):
+    pieces = []
+    for j in range(len(ex)):
+        n, v = U_EX[(ei + j) % len(U_EX)]
+        pieces.append(n + "=" + v if ex[j] == 0 else n + "=" if ex[j] == 1 else n)
+    url = U_BASES[b]
+    if pieces:
+        url += "?" + "&".join(pieces)
+    if fr:
+        url += "#" + U_FRAG
+    pairs = [U_ARGS[(ai + j) % len(U_ARGS)] for j in range(na)]
+    args = None if ak == 0 else dict(pairs) if ak == 1 else list(pairs) if ak == 2 else tuple(pairs)
+    got = httputil.url_concat(url, args)
+    if args is None:
+        reached("none_args")
+        assert got == url, "url_concat(url, None) must return the url unchanged"
+        return
+    head0, q0, f0 = ref_split_url(url)
+    head1, q1, f1 = ref_split_url(got)
+    want = ref_pairs(q0) + pairs
+    if ak == 1:
+        reached("dict_args")
+        if na == 0:
+            reached("empty_dict")
+    if fr:
+        reached("fragment")
+    if any(v == "" for _n, v in ref_pairs(q0)):
+        reached("blank_kept")
+    assert head1 == head0, "scheme/authority/path changed: %r -> %r" % (url, got)
+    assert f1 == f0, "fragment not preserved: %r -> %r" % (url, got)
+    assert ref_pairs(q1) == want, "query pairs of %r are %r, expected %r" % (got, ref_pairs(q1), want)
+
+
+# ----------------------------------------------------------------- HTTP timestamps
+T_BOUNDS = [0, 1, 59, 60, 3599, 86399, 86400, 951782400, 951868799, 1078012800, 2 ** 31 - 1, 2 ** 31, 2 ** 32 - 1,
+            4107542400]
+_IMF = re.compile(r"(Mon|Tue|Wed|Thu|Fri|Sat|Sun), [0-3][0-9] (Jan|Feb|Mar|Apr|May|Jun|Jul|Aug|Sep|Oct|Nov|Dec) "
+                  r"[0-9]{4} [0-2][0-9]:[0-5][0-9]:[0-6][0-9] GMT")
+
+
+def pre_ts(bi: int, d: int, kind: int) -> bool:
+    return 0 <= bi < len(T_BOUNDS) and -2 <= d <= 2 and 0 <= kind <= 4 and in_shard(kind)
+
+
+@harness(pre=pre_ts, quick=dict(timeout=150), thorough=dict(timeout=300), nshards=5, reach=["aware_datetime", "roundtrip"],
+         units=["httputil.format_timestamp"],
+         stubs=["POOLED SEARCH, not exhaustive over integers: seconds = one of %d boundary values (epoch, minute/hour/day "
+                "ends, leap days 2000/2004, 2100-03-01, 2**31-1, 2**31, 2**32-1) + a delta in -2..2 made concrete by "
+                "branching, because time.gmtime / datetime (C) realise symbolic integers" % len(T_BOUNDS),
+                "parser = email.utils.parsedate_to_datetime (the one tornado.web uses for If-Modified-Since)"],
+         outside=["other instants", "fractional seconds (HTTP dates have none)", "negative timestamps"])
+def h_timestamp(bi: int, d: int, kind: int):
+    import calendar
+    import datetime
+    import email.utils
+    import time
+    cd = -2 if d == -2 else -1 if d == -1 else 0 if d == 0 else 1 if d == 1 else 2
+    base = 0
+    for i in range(len(T_BOUNDS)):      # branch so that the instant is concrete on every path (no symbolic floats)
+        if bi == i:
+            base = T_BOUNDS[i]
+    ts = base + cd
+    if ts < 0:
+        return
+    if kind == 0:
+        arg = ts
+    elif kind == 1:
+        arg = float(ts)
+    elif kind == 2:
+        arg = time.gmtime(ts)
+    elif kind == 3:
+        arg = datetime.datetime(*time.gmtime(ts)[:6])                            # naive = UTC
+    else:
+        reached("aware_datetime")
+
+        class _IST(datetime.tzinfo):                                             # UTC+05:30, no DST
+            def utcoffset(self, dt):
+                return datetime.timedelta(hours=5, minutes=30)
+
+            def dst(self, dt):
+                return datetime.timedelta(0)
+
+            def tzname(self, dt):
+                return "IST"
+        arg = datetime.datetime(*time.gmtime(ts + 19800)[:6], tzinfo=_IST())
+    s = httputil.format_timestamp(arg)
+    assert _IMF.fullmatch(s), "not an IMF-fixdate: %r" % s
+    back = email.utils.parsedate_to_datetime(s)
+    reached("roundtrip")
+    assert calendar.timegm(back.utctimetuple()) == ts, "timestamp %d formats to %r which parses to another instant" % (ts, s)
 
 
 def pre_s(s: str) -> bool:
